@@ -22,7 +22,15 @@ pub open spec fn wire_delay_spec(run: u32) -> Result<usize, MapWireDelayError> {
 }
 // waveform.iter().skip(delay).map(|&v| f64::from(i32::from(v) - i32::from(baseline)) * gain).collect(): float arithmetic, opaque;
 // its integer part is proved exact by the Kani harness cal_wire_complete
-pub uninterp spec fn calibrated(w: Seq<i16>, delay: usize, baseline: i16, gain: f64) -> Seq<f64>;
+// (raw - baseline) * gain for one sample: the difference is exact integer arithmetic (verified in the body, no overflow); the
+// conversion to f64 and the product are floating point and stay opaque
+pub uninterp spec fn scale(d: i32, gain: f64) -> f64;
+#[verifier::external_body]
+pub fn lift_scale(d: i32, gain: f64) -> (r: f64) ensures r == scale(d, gain) { unimplemented!() }
+// the calibrated waveform: the first `delay` samples removed, every remaining sample, in order, as scale(raw - baseline, gain)
+pub open spec fn calibrated(w: Seq<i16>, delay: usize, baseline: i16, gain: f64) -> Seq<f64> {
+    Seq::new((if delay <= w.len() { w.len() - delay } else { 0 }) as nat, |i: int| scale((w[delay + i] as i32 - baseline as i32) as i32, gain))
+}
 
 pub open spec fn slots_same(a: Seq<Option<Vec<f64>>>, b: Seq<Option<Vec<f64>>>) -> bool { a =~= b }
 pub open spec fn v3(p: AdcPacket) -> AdcV3Packet { match p { AdcPacket::V3(q) => q } }
